@@ -103,8 +103,8 @@ P("C08", [f"{RED}:_greedy_prune_partition", f"{RED}:CoolerCoarsener.__init__", f
   "Proof core: CoolerCoarsener.__init__ builds, for every chromosome layout, factor and chunk size, a pixel partition whose every edge is the offset of a coarse-row start (bin1_offset[chrom_offset[c] + g*factor]) or nnz (loop invariant with ghost witnesses; Cooler/GenomeSegmentation by assumed models), and _greedy_prune_partition keeps only values of that edge list, ordered, from 0 to nnz - so no coarse row is ever split across spans; get_binsize (which decides the re-binning path) is truthful (C20). Bounded stand-in for the rest (all small coolers x factors x chunk sizes x workers against a block-aggregate model). CoolerCoarsener._aggregate (where each fine pixel goes) is verified for every chunk, chromosome layout, bin size and factor k >= 2: for both ends of every pixel the new bin id is new_chrom_offset[c] + (fine_id - old_chrom_offset[c]) div k - the coarse bin containing the fine bin - on the fixed-width path (floor(start/(k*binsize)); nonlinear quotient/remainder lemma as hint) and on the variable-width path (searchsorted over the absolute starts of the coarse bins; hint chain), the rows read are exactly the span, and the chunk is grouped by the new key, sorted, and aggregated with the coarsener's functions. CoolerCoarsener.__iter__ (coordinator, 0..5 spans with symbolic edges, batch sizes 1..3): the spans are the consecutive edge pairs, handed to the worker map in consecutive batches, each exactly once, and the stream yields one chunk per span IN SPAN ORDER; the lock is held around a batch iff batchsize > 1 and always released.",
   level="other", unverified=["the worker map (assumed: results in input order, as builtin map and Pool.map)", "pandas groupby/aggregate and the joined pixel selector (assumed by the _aggregate stubs)", "coarsen_bins (bin table construction; pandas groupby/apply)"])
 
-P("C09", [f"{RED}:get_multiplier_sequence", f"{RED}:zoomify_cooler", f"{RED}:coarsen_cooler"], "bounded/C09.py",
-  "Proof core: the zoom plan (three loops with invariants and a variant): every non-base resolution is derived from the LARGEST smaller member dividing it with multiplier >= 2, a supplied base is never re-derived, and a non-derivable member is refused exactly. Bounded stand-in for the rest (plan level: all subsets of resolutions x bases; file level against direct coarsening). zoomify_cooler (coordinator, four concrete plans - chain, fan-out with an extra value column, two interleaved bases, base only - with symbolic file names, chunk size and options; the plan comes from get_multiplier_sequence's contract): the output is truncated exactly once and re-opened r+ afterwards, inputs are only read; every base level is a copy of its own input's chroms, bins, requested pixel columns, indexes and attributes under /resolutions/<binsize>; every planned non-base level is produced by exactly one coarsen_cooler call, in plan order, from the predecessor and with the factor the plan names, inside the output in r+ mode; base levels are never re-derived; the file is finally marked HDF5::MCOOL.",
+P("C09", [f"{RED}:get_multiplier_sequence", f"{RED}:zoomify_cooler", f"{RED}:coarsen_cooler", "cooler.fileops:is_multires_file", "cooler.fileops:list_coolers"], "bounded/C09.py",
+  "Proof core: the zoom plan (three loops with invariants and a variant): every non-base resolution is derived from the LARGEST smaller member dividing it with multiplier >= 2, a supplied base is never re-derived, and a non-derivable member is refused exactly. Bounded stand-in for the rest (plan level: all subsets of resolutions x bases; file level against direct coarsening). zoomify_cooler (coordinator, four concrete plans - chain, fan-out with an extra value column, two interleaved bases, base only - with symbolic file names, chunk size and options; the plan comes from get_multiplier_sequence's contract): the output is truncated exactly once and re-opened r+ afterwards, inputs are only read; every base level is a copy of its own input's chroms, bins, requested pixel columns, indexes and attributes under /resolutions/<binsize>; every planned non-base level is produced by exactly one coarsen_cooler call, in plan order, from the predecessor and with the factor the plan names, inside the output in r+ mode; base levels are never re-derived; the file is finally marked HDF5::MCOOL. is_multires_file / list_coolers over a ghost tree with symbolic format attributes: recognised iff the root is marked MCOOL and the first resolution is a collection (False, not an error, otherwise); every resolution that is a collection is listed once.",
   level="other", unverified=["zoomify_cooler for plans other than the four verified shapes (its loops do not depend on the plan length)", "coarsen_bins (bin table construction)"])
 
 P("C10", [f"{BAL}:_init", f"{BAL}:_binarize", f"{BAL}:_zero_diags", f"{BAL}:_zero_trans", f"{BAL}:_zero_cis", f"{BAL}:_timesouterproduct", f"{BAL}:balance_cooler"], "bounded/C10.py", "Proof core: the per-pixel filters of the balancing pipeline are verified elementwise for every chunk (which pixels are zeroed: |bin1-bin2| < n_diags strictly, trans / cis by the chromosome of the two bins; binarisation; weighting by vec[bin1]*vec[bin2]) together with their frame (no filter writes the shared chunk; _init returns a fresh copy). balance_cooler itself is verified as a coordinator (sweeps and the split engine replaced by recording stubs; all nnz, bin counts, thresholds, chunk sizes, modes): the binarised marginal pass runs iff min_nnz > 0 and every pass uses exactly the requested filters; the initial bias handed to the sweeps is 0 exactly for the bins with nnz-marginal < min_nnz or (min_count set and) count-marginal < min_count and 1 otherwise; exactly one balancer runs, chosen by mode, with the caller's arguments; converged is var < tol; store replaces only bins/<name> and attaches the returned stats. The MAD-max block, x0 and blacklist (excluded by the contract's precondition), the sweeps and the flatness bound are covered by the bounded tier only.", level="other",
@@ -115,9 +115,9 @@ P("C11", [f"{UT}:partition", f"{BAL}:_init", f"{BAL}:_zero_diags", f"{BAL}:_time
           "cooler.parallel:MultiplexDataPipe.pipe", "cooler.parallel:MultiplexDataPipe.run", "cooler.parallel:MultiplexDataPipe.reduce"], "bounded/C11.py", "Proof core: balance_cooler's chunk spans tile [0, nnz) for EVERY chunk size (first span at 0, consecutive spans of exactly chunksize pixels, ceil(nnz/chunksize) of them, the last reaches nnz, none starts at or beyond nnz; a single span for chunksize=None) and every marginal pass and the balancer receive the same spans, the caller's map and lock (coordinator contract, shared with C10); util.partition tiles [start, stop) exactly for every step (the per-chromosome spans of cis-only balancing); the per-pixel filters never write the shared chunk. The split-apply-combine engine is under coordinator contracts: split's keys are the caller's spans (default: partition(0, nnz, chunksize)); pipe() returns a NEW pipe with the filters appended and never shares or changes the receiver's filter list; run() hands the pipe's own filters, initialiser, getter and exactly its keys to the map once; apply_pipeline fetches the key once and threads ONE pristine chunk and each predecessor's output through the filters in order; chunkgetter reads exactly rows [lo, hi) of the pixel table once (lock held around the read when requested, nothing remembered between calls); reduce is functools.reduce of the run's results with the caller's operator from init. Real maps, pools and completion orders are explored by the bounded tier.", level="other",
   unverified=["the map functor itself (assumed: applies the function to every key exactly once)", "functools.reduce (assumed left fold)", "process pools / completion order (concurrency is outside contracts)"])
 
-P("C12", [f"{API}:matrix", f"{API}:Cooler.matrix", f"{API}:annotate", f"{RQ}:CSRReader.__call__"], "bounded/C12.py",
-  "Proof: api.matrix (sparse and dense outputs) multiplies every raw value by the weight of its own row bin and its own column bin from the selected column (reciprocals when divisive; rows from [i0,i1), columns from [j0,j1) also when the ranges differ, incl. the aliasing shortcut for equal ranges), refuses a missing column with ValueError, and builds the fill-lower engine iff asked with the window as bounding box (engine outputs by assumed model; their content is C03's exactly-once lemma and the CSRReader.__call__ contract, included). Cooler.matrix is proved to pass every option through, with the divisive default exactly for KR/VC/VC_SQRT when the caller passed None and fill_lower = symmetric-upper. The balanced pixel-table branch is under contract as well: the weights are looked up for the engine's own records in THIS collection's bin table, column = the selected name, and the added 'balanced' column is value x weight[bin1] x weight[bin2] (reciprocals when divisive) with raw values and ids untouched; join annotates the same frame afterwards. The lookup itself is api.annotate, verified as a function over pandas frames for every pixel order, every contiguous part of the bin table and the selector form: each pixel gets the columns of its own two bins. dump -b is covered by the bounded tier; NaN propagation through * and / is assumed (IEEE), not modelled.", level="other",
-  unverified=["dump --balanced annotator (cli)", "Cooler(h5).bins()[[name]] inside api.matrix (assumed: selector over that column of this group's bin table)"])
+P("C12", [f"{API}:matrix", f"{API}:Cooler.matrix", f"{API}:annotate", "cooler.cli.dump:make_annotator.annotator", f"{RQ}:CSRReader.__call__"], "bounded/C12.py",
+  "Proof: api.matrix (sparse and dense outputs) multiplies every raw value by the weight of its own row bin and its own column bin from the selected column (reciprocals when divisive; rows from [i0,i1), columns from [j0,j1) also when the ranges differ, incl. the aliasing shortcut for equal ranges), refuses a missing column with ValueError, and builds the fill-lower engine iff asked with the window as bounding box (engine outputs by assumed model; their content is C03's exactly-once lemma and the CSRReader.__call__ contract, included). Cooler.matrix is proved to pass every option through, with the divisive default exactly for KR/VC/VC_SQRT when the caller passed None and fill_lower = symmetric-upper. The balanced pixel-table branch is under contract as well: the weights are looked up for the engine's own records in THIS collection's bin table, column = the selected name, and the added 'balanced' column is value x weight[bin1] x weight[bin2] (reciprocals when divisive) with raw values and ids untouched; join annotates the same frame afterwards. The lookup itself is api.annotate, verified as a function over pandas frames for every pixel order, every contiguous part of the bin table and the selector form: each pixel gets the columns of its own two bins. The annotator of `cooler dump -b` (make_annotator.annotator) is verified the same way: balanced = count x weight[bin1] x weight[bin2]. NaN propagation through * and / is assumed (IEEE), not modelled.", level="other",
+  unverified=["Cooler(h5).bins()[[name]] inside api.matrix (assumed: selector over that column of this group's bin table)"])
 
 P("C13", [f"{ING}:_validate_pixels", f"{CR}:create", f"{CR}:write_pixels"], "bounded/C13.py", "Proof core: the default validator accepts a chunk iff it has no out-of-range id, no lower-triangle pixel (symmetric mode) and no in-chunk duplicate, raises BadInputError exactly otherwise, and returns the records unchanged (pandas duplicated/sort_values by assumed contract). create() itself is verified as a coordinator over a ghost operation log (every helper and h5py call replaced by a recording stub; 41 configurations of mode/append/root-or-nested target/check flags/input forms/single-cell append, symbolic paths, counts and symmetric flag): the validator is chained onto the caller's pixel stream iff any check is requested, with the bin count and exactly the requested checks (triangularity only in symmetric mode); a refused call opens no file; every write lies inside the target group of the target file; the info record is written once and last, so a stream that fails has left no info record. write_pixels (the append loop every producer goes through) is verified with ghost dataset contents for EVERY number of chunks and chunk lengths: each pixel column ends up as the concatenation of that column over the chunks in order, its length is the returned nnz (pre-allocated rows dropped when nothing arrived), the returned total is the sum of the count column (integer and float configurations), only the target group of the target file is touched, always opened r+. What an interrupted write leaves on disk is covered by the bounded tier (fault injection at every chunk index).", level="other",
   unverified=["what a mid-stream exception leaves on disk (write_pixels is proved for complete streams only)", "is_cooler on the partial file (bounded)"])
@@ -134,7 +134,7 @@ P("C14", [f"{SEL}:_IndexingMixin._process_slice", f"{SEL}:RangeSelector1D.__geti
   "each pixel gets the columns of its own two bins in front, the pixel columns, order and index are kept.", level="other",
   unverified=["_tableops.get bytes decoding (astype(U))", "pandas Index.append/drop_duplicates, Categorical.from_codes (assumed by stubs)"])
 
-P("C15", [f"{UT}:parse_cooler_uri", "cooler.fileops:_copy", "cooler.fileops:_is_cooler", "cooler.fileops:is_cooler", f"{CR}:create"], "bounded/C15.py",
+P("C15", [f"{UT}:parse_cooler_uri", "cooler.fileops:_copy", "cooler.fileops:_is_cooler", "cooler.fileops:is_cooler", "cooler.fileops:list_coolers", f"{CR}:create"], "bounded/C15.py",
   "Proof core: URI splitting for all strings, and the branch logic of fileops._copy (behind cp/mv/ln) over a ghost "
   "operation log of two h5py handles, for all flag combinations, group paths and same/different files: the "
   "destination file is opened for truncation iff it is absent or overwrite was asked, the source is never opened "
@@ -146,15 +146,18 @@ P("C15", [f"{UT}:parse_cooler_uri", "cooler.fileops:_copy", "cooler.fileops:_is_
   "create() (coordinator contract over the same kind of log): the first open uses the requested mode - write by default, "
   "append when asked - and every later open is r+; with a nested target exactly the target group is deleted, iff it "
   "existed, and created afresh; with a root target exactly the existing ones of the four tables are deleted; every "
-  "write lies inside the target group. Sequences of operations on real files are explored by the bounded tier.", level="other",
-  unverified=["cp/mv/ln (one-line wrappers of _copy)", "list_coolers / visititems (tree walk)",
+  "write lies inside the target group. list_coolers (with visititems, TreeNode.get_children and _is_cooler executed inline) over a ghost TREE - four concrete shapes incl. collections nested below "
+  "one another with datasets in between, every group's format attribute symbolic: the listing holds exactly the groups that are collections (root and any depth), each once, in natural order; OSError for a non-HDF5 file; read-only. "
+  "Sequences of operations on real files are explored by the bounded tier.", level="other",
+  unverified=["cp/mv/ln (one-line wrappers of _copy)", "list_coolers for tree shapes other than the four verified (the walk is recursive; no induction over the tree)",
               "h5py link/copy semantics (assumed by the operation-log model)"])
 
-P("C16", [f"{ING}:_sanitize_pixels", f"{ING}:_validate_pixels", f"{RQ}:FillLowerRangeQuery2D.__init__", f"{RQ}:DirectRangeQuery2D.__init__"], "bounded/C16.py", "Proof core: the pieces of the dump/load paths that are under contract - the query engines dump iterates (exactly-once lemma, shared with C03) and the pre-binned-record sanitizer and validator cooler load runs every chunk through (shared with C05/C13). The option semantics of dump, the loaders' column mapping and the zoomify spec expansion are covered by the bounded tier (all 128 dump option subsets, all column permutations).",
-  level="other", unverified=["cli.dump (option semantics)", "cli.load / cli.cload.pairs (column mapping)", "parse_field_param", "zoomify spec loop"])
+P("C16", [f"{ING}:_sanitize_pixels", f"{ING}:_validate_pixels", f"{RQ}:FillLowerRangeQuery2D.__init__", f"{RQ}:DirectRangeQuery2D.__init__",
+          "cooler.cli.dump:dump", "cooler.cli.dump:make_annotator.annotator"], "bounded/C16.py", "Proof core: the pieces of the dump/load paths that are under contract - the query engines dump iterates (exactly-once lemma, shared with C03) and the pre-binned-record sanitizer and validator cooler load runs every chunk through (shared with C05/C13). cli.dump (pixel table) is under a coordinator contract (all flags, regions, storage mode, chunk size symbolic): the box is the whole matrix without regions, the extent of -r on both axes with -r alone, the extents of -r (rows) and -r2 (columns) with both, each looked up with this cooler's ids, lengths and bin size; the lower triangle is filled iff --fill-lower was given and the cooler is symmetric-upper wherever the box reaches below the diagonal; every engine chunk is written once, in order, through the annotator iff an annotation option was given (built from this cooler's bins and exactly the flags), -c applied after annotation, header once iff asked. The annotator (nested function) is verified over pandas frames: balanced = count x weight[bin1] x weight[bin2], join replaces ids by the coordinates of the pixel's own bins, the one-based flags add exactly one to the ids / starts present. The loaders' column mapping, text formatting and the zoomify spec expansion are covered by the bounded tier (all 128 dump option subsets, all column permutations).",
+  level="other", unverified=["to_csv text formatting", "cli.dump chroms/bins tables", "cli.load / cli.cload.pairs (column mapping)", "parse_field_param", "zoomify spec loop"])
 
-P("C17", [f"{CR}:create", f"{CR}:create_scool"], "bounded/C17.py", "Proof core: the per-cell append path of create() (create() itself is verified as a coordinator over a ghost operation log (every helper and h5py call replaced by a recording stub; 41 configurations of mode/append/root-or-nested target/check flags/input forms/single-cell append, symbolic paths, counts and symmetric flag)): a cell's chroms table and its three standard bin columns are hard links to the ROOT tables of the single-cell file named by scool_root_uri (no table is written again), its own extra bin columns - exactly the non-standard columns of the cell's bin table - are stored per cell under <cell>/bins, its pixels, indexes and info are written as for any collection, the root file is never truncated, and append_scool without a root URI is refused. create_scool itself (coordinator, 1..3 cells given in an insertion order different from the sorted one, common or per-cell bin tables): every cell gets exactly one per-cell create at <file>::/cells/<name> with ITS OWN pixels and ITS OWN bin table, appended and linked to this file's root; the root gets the common chroms, the three standard bin columns and a scool info record with ncells = number of cells; the file is created with the caller's mode once; a bins dict with other keys than the cells is refused. (A name containing '/' is stored under its basename: known finding, refuted clause.) Larger cell sets, reading back and listing are covered by the bounded tier.", level="other",
-  unverified=["list_scool_cells / is_scool_file", "create_scool for more than 3 cells (the per-cell loop does not depend on the count)", "h5py hard-link semantics (assumed)"])
+P("C17", [f"{CR}:create", f"{CR}:create_scool", "cooler.fileops:is_scool_file", "cooler.fileops:list_scool_cells"], "bounded/C17.py", "Proof core: the per-cell append path of create() (create() itself is verified as a coordinator over a ghost operation log (every helper and h5py call replaced by a recording stub; 41 configurations of mode/append/root-or-nested target/check flags/input forms/single-cell append, symbolic paths, counts and symmetric flag)): a cell's chroms table and its three standard bin columns are hard links to the ROOT tables of the single-cell file named by scool_root_uri (no table is written again), its own extra bin columns - exactly the non-standard columns of the cell's bin table - are stored per cell under <cell>/bins, its pixels, indexes and info are written as for any collection, the root file is never truncated, and append_scool without a root URI is refused. create_scool itself (coordinator, 1..3 cells given in an insertion order different from the sorted one, common or per-cell bin tables): every cell gets exactly one per-cell create at <file>::/cells/<name> with ITS OWN pixels and ITS OWN bin table, appended and linked to this file's root; the root gets the common chroms, the three standard bin columns and a scool info record with ncells = number of cells; the file is created with the caller's mode once; a bins dict with other keys than the cells is refused. (A name containing '/' is stored under its basename: known finding, refuted clause.) is_scool_file / list_scool_cells over a ghost tree (root, /chroms, /bins, /cells with three cells whose names mix digit-initial and letter-initial names; every format attribute symbolic): recognised iff the root carries the scool format and every cell is a collection; the listing names exactly the cells (root excluded), each once, in natural order, and never fails on mixed names; OSError otherwise. Larger cell sets and reading back are covered by the bounded tier.", level="other",
+  unverified=["is_scool_file / list_scool_cells for other tree shapes than the verified ones", "create_scool for more than 3 cells (the per-cell loop does not depend on the count)", "h5py hard-link semantics (assumed)"])
 
 P("C18", [f"{CR}:_rename_chroms", f"{CR}:rename_chroms", "cooler.api:Cooler._refresh", "cooler.api:bins"], "bounded/C18.py",
   "Proof core: _rename_chroms over a ghost operation log of the HDF5 group, for all tables, maps and both "
